@@ -59,9 +59,17 @@ def writeString (s : Bytes) (tag : Nat) : Bytes :=
 /-! ## Reader (`codec.Reader` over `bytes.Reader`) -/
 
 structure Reader where
-  data : Bytes
-  pos  : Nat        -- may exceed `data.length` after `Seek`
+  data : Array Byte -- `Reader.ref`: the whole input (an array so that the compiled driver reads in O(1))
+  pos  : Nat        -- may exceed `data.size` after `Seek`
 deriving Repr, DecidableEq
+
+/-- `n` bytes starting at index `i` (fewer if the input ends): `data[i : min(i+n, len)]` -/
+def takeFrom (a : Array Byte) (i : Nat) : Nat → Bytes
+  | 0 => []
+  | n+1 =>
+    match a[i]? with
+    | some b => b :: takeFrom a (i+1) n
+    | none => []
 
 inductive Err where
   | eof          -- io.EOF from the underlying reader
@@ -92,13 +100,13 @@ instance : Monad RM where
 
 namespace Reader
 
-def mk0 (data : Bytes) : Reader := ⟨data, 0⟩
+def mk0 (data : Bytes) : Reader := ⟨data.toArray, 0⟩
 
 /-- `bytes.Reader.Len()` -/
-def remaining (r : Reader) : Nat := r.data.length - r.pos
+def remaining (r : Reader) : Nat := r.data.size - r.pos
 
 /-- unread portion -/
-def rest (r : Reader) : Bytes := r.data.drop r.pos
+def rest (r : Reader) : Bytes := r.data.toList.drop r.pos
 
 end Reader
 
@@ -119,9 +127,9 @@ def seekCur (n : Nat) : RM Unit := fun r => (.ok (), { r with pos := r.pos + n }
     `buf`: returns the `n`-byte buffer contents (zero-padded on a short read) and whether `io.EOF`
     was returned (only when nothing at all was available).  -/
 def readBuf (n : Nat) : Reader → (Bytes × Bool) × Reader := fun r =>
-  if r.pos ≥ r.data.length then ((zeros n, true), r)
+  if r.pos ≥ r.data.size then ((zeros n, true), r)
   else
-    let got := (r.data.drop r.pos).take n
+    let got := takeFrom r.data r.pos n
     ((got ++ zeros (n - got.length), false), { r with pos := r.pos + got.length })
 
 /-- `bReadU16/32/64`: the value is assigned even when an error is returned; callers use it only
@@ -163,10 +171,10 @@ def skip (n : Int) : RM Unit := fun r =>
 def next (n : Int) : RM Bytes := fun r =>
   if n ≤ 0 then (.ok [], r)
   else
-    let beg := r.data.length - r.remaining
+    let beg := r.data.size - r.remaining
     let r' : Reader := { r with pos := r.pos + n.toNat }
-    let end_ := r.data.length - r'.remaining
-    (.ok ((r.data.take end_).drop beg), r')
+    let end_ := r.data.size - r'.remaining
+    (.ok (takeFrom r.data beg (end_ - beg)), r')
 
 /-- The first iteration of `SkipToNoCheck(0, true)` (which is the only one: no tag is `< 0`),
     followed by the `ReadInt32` switch: this is `ReadInt32(&length, 0, true)` as used for every
@@ -271,7 +279,7 @@ def skipToStructEnd : Nat → RM Unit
 end
 
 /-- fuel that is always sufficient for a reader (theorem `skip_fuel_suffices`) -/
-def Reader.fuel (r : Reader) : Nat := 2 * r.data.length + 8
+def Reader.fuel (r : Reader) : Nat := 2 * r.data.size + 8
 
 /-- `Reader.SkipToNoCheck(tag, require)`: returns `(have, tyCur)` -/
 def skipToNoCheckF : Nat → Nat → Bool → RM (Bool × Nat)
